@@ -648,7 +648,11 @@ func c02Elliptic(c *Ctx) {
 		n := "load(faddr<N>(call<(crypto/elliptic.Curve).Params>(load(faddr<Curve>(p0)))))"
 		k := "load(faddr<K>(p0))"
 		il := "obj(alloc<math/big.Int>, call<(*math/big.Int).SetBytes>(self, p1))"
-		sum := "obj(alloc<math/big.Int>, call<(*math/big.Int).SetBytes>(self, p1), call<(*math/big.Int).Add>(self, self, " + k + "), call<(*math/big.Int).Mod>(self, self, " + n + "))"
+		// (I_L + K) mod N computed in place in the parsed I_L, or into a fresh value (big.Int results depend on the operands only)
+		ilv := "obj(alloc<math/big.Int>, call<(*math/big.Int).SetBytes>(self, p1))"
+		sum := "alt(obj(alloc<math/big.Int>, call<(*math/big.Int).SetBytes>(self, p1), call<(*math/big.Int).Add>(self, self, " + k + "), call<(*math/big.Int).Mod>(self, self, " + n + ")), " +
+			"obj(alloc<math/big.Int>, call<(*math/big.Int).Add>(self, " + ilv + ", " + k + "), call<(*math/big.Int).Mod>(self, self, " + n + ")), " +
+			"obj(alloc<math/big.Int>, call<(*math/big.Int).Add>(self, " + k + ", " + ilv + "), call<(*math/big.Int).Mod>(self, self, " + n + ")))"
 		rej := plainEdges(edgesMatching(b, "bin<>=>(call<(*math/big.Int).Cmp>("+il+", "+n+"), 0)", "bin<==>(call<(*math/big.Int).Sign>("+sum+"), 0)"))
 		avoid := ana.ReachableAvoiding(fn, rej)
 		for _, e := range ana.Exits(fn) {
